@@ -141,6 +141,9 @@ func (c *wsConn) nextWriter(cb func(io.Writer)) {
 	wcl, err := c.conn.NextWriter(websocket.TextMessage)
 	if err != nil {
 		log.Error("handle me:", err)
+		// the callback must always run: callers (lazyWriter.Write) block until
+		// it has been invoked, and would otherwise leak their goroutine
+		cb(io.Discard)
 		return
 	}
 
